@@ -91,3 +91,36 @@ func AddressingCorpus() []*Scenario {
 	add("out-like-actor-object", "PostOutbox", outbox(Alice), ap.Both, Doc("Like", "", "actor", Alice, "object", L{Alice, RNote}, "to", Alice))
 	return s
 }
+
+// MutatedCorpus: every corpus request that has a JSON body, with one node of the body removed, emptied or
+// replaced by an unusual but legal value (the legal subset of C11's mutation operators).
+func MutatedCorpus() []*Scenario {
+	var out []*Scenario
+	for _, sc := range Corpus() {
+		if sc.Body == nil {
+			continue
+		}
+		var paths []jpath
+		var doc interface{} = deepCopy(sc.Body)
+		walkNodes(doc, nil, &paths)
+		for _, p := range paths {
+			if len(p) == 0 {
+				continue
+			}
+			for _, op := range mutOps {
+				if !legalOps[op.name] {
+					continue
+				}
+				m, ok := mutate(doc, p, op).(map[string]interface{})
+				if !ok {
+					continue
+				}
+				c := *sc
+				c.Name = fmt.Sprintf("%s [%s -> %s]", sc.Name, p.String(), op.name)
+				c.Body = m
+				out = append(out, &c)
+			}
+		}
+	}
+	return out
+}
